@@ -36,9 +36,23 @@ def run(c):
         lines.append('wf ' + ' '.join(toks))
         owners.append(('delayed', eng, k, toks))
     out, _ = run_lines_sharded(vm, lines)
+    # the completeness half: the extracted checker trace_completeb (TraceComplete.v; the statement of
+    # large_trace_complete / fast_trace_complete) applied to every implementation trace of a generated chart
+    tc_lines, tc_owner = [], []
+    for k, (tag, eng, i, toks) in enumerate(owners):
+        if tag == 'delayed':
+            continue
+        case = (cases if tag == 'sem' else fcases)[i]
+        tc_lines.append('tc %d %s %s' % (1 if case['late'] else 0, G.sx_tree(case['tree']), ' '.join(toks)))
+        tc_owner.append(k)
+    tc_out, _ = run_lines_sharded(vm, tc_lines)
+    tc_res = dict(zip(tc_owner, tc_out))
+    c.cov['trace_completeb_applied'] = len(tc_lines)
+    c.cov['trace_completeb_hypotheses_failed'] = sum(1 for o in tc_out if o.startswith('-'))
+    compl_unreported = 0
     bad = []
     nontriv = set()
-    for (tag, eng, i, toks), o in zip(owners, out):
+    for k, ((tag, eng, i, toks), o) in enumerate(zip(owners, out)):
         if any(t.startswith('C{:') for t in toks):
             nontriv.add(hash(tuple(toks)))
         if o != '1':
@@ -47,6 +61,17 @@ def run(c):
         d = delta_check(toks)
         if d:
             bad.append((tag, eng, i, d))
+        else:
+            r = tc_res.get(k)
+            if r is not None and not (r == '1' or r.startswith('-')):
+                bad.append((tag, eng, i, 'incomplete account (trace_completeb): first offending token ' + r[2:]))
+        # literal reading of the property: the states active at completion are exited (their onexit handlers run inside
+        # the completion bracket) without an exit notification
+        if 'COMPL{' in toks:
+            a = toks.index('COMPL{')
+            before = [t for t in toks[:a] if t.startswith('CFG:')]
+            if before and before[-1] != 'CFG:' and not any(t.startswith('X{:') for t in toks[a:]):
+                compl_unreported += 1
     c.cov['evaluations'] = len(owners)
     c.cov['distinct_nontrivial'] = len(nontriv)
     c.cov['rule'] = ('every trace of the C01 runs and of the fault-injection runs (failing elements at random positions of executable blocks), '
@@ -55,6 +80,13 @@ def run(c):
                      'distinct trace with at least one executable-content bracket')
     c.cov['samples'] = [' '.join(owners[len(owners) // 2][3][:60])]
     c.cov['ill_formed'] = len(bad)
+    c.cov['runs_with_unreported_completion_exits'] = compl_unreported
+    if compl_unreported:
+        f = c.match_known({'class': 'completion-exits-unreported'})
+        if f:
+            c.known(f['id'], f['what'] + ' (%d runs this run)' % compl_unreported)
+        else:
+            c.violation({'kind': 'oracle', 'class': 'completion-exits-unreported', 'count': compl_unreported})
     if vflags[3] == '1':
         f = c.match_known({'switch': 'if_bracket_left_open_on_nested_error'})
         if f:
